@@ -33,7 +33,10 @@ def partial(t, phase):
 def check(seq):
     fails = []
     q = gen.render(seq)
-    t0 = parser.parse(q)
+    try:
+        t0 = parser.parse(q)
+    except Exception:  # noqa: BLE001  not accepted (e.g. a non-integer proximity): outside the property's quantifier
+        return 0, []
     cands = [("layout-free", gen.strip_layout(t0)), ("partial0", partial(t0, 0)), ("partial1", partial(t0, 1))]
     n = 0
     for kind, t in cands:
